@@ -176,13 +176,15 @@ Definition rat_to_float (P : enc_params) (N D : Z) : Z * comparison :=
     encode_asis P (if neg then - man else man) shift.
 
 (** Repr::to_f32_fast / to_f64_fast: 2K-bit numerator by K-bit denominator (K = 24 / 53), both
-    truncated, quotient rounded to nearest even, then encode (a second rounding) *)
+    shifted (floor), quotient rounded to nearest even, then encode (a second rounding) *)
 Definition rat_to_float_fast (P : enc_params) (N D : Z) : Z :=
   if N =? 0 then 0 else
   let neg := N <? 0 in
   let K := MB P + 1 in
   let num_shift := blen (Z.abs N) - 2 * K in
-  let numK := if 0 <=? num_shift then Z.abs N / 2 ^ num_shift else Z.abs N * 2 ^ (- num_shift) in
+  (* IBig >> rounds towards minus infinity, the magnitude is taken afterwards: a negative numerator
+     with dropped bits is rounded away from zero *)
+  let numK := if 0 <=? num_shift then Z.abs (N / 2 ^ num_shift) else Z.abs N * 2 ^ (- num_shift) in
   let den_shift := blen D - K in
   let denK := if 0 <=? den_shift then D / 2 ^ den_shift else D * 2 ^ (- den_shift) in
   let exponent := num_shift - den_shift in
